@@ -384,6 +384,9 @@ def r5(ctx: Ctx) -> None:
 
         chol_ids, other_ids = part(False), part(True)
         ok = len(chol_ids) == 1 and len(other_ids) == 1
+        if not chol_ids and not other_ids:
+            ctx.unrec(f, f.node, "markets are split into volatile (Cholesky) and zero-volatility ones by `volatility != 0`", "the returned rows are not built from the two id lists in a form that is modelled", short(ret_n)[:160])
+            continue
         ctx.check(ok, f, f.node, "markets are split into volatile (Cholesky) and zero-volatility ones by `volatility != 0`", "[x for x in ids if vol[x] != 0.0] / [x for x in ids if vol[x] == 0.0]", f"{len(chol_ids)}/{len(other_ids)} partitions found")
         if not ok:
             continue
